@@ -235,6 +235,8 @@ type Op struct {
 	// Nil (publish): the published event is null - 1: an untyped nil, 2: a nil pointer of the type
 	// the events have. Each matching subscriber gets its message, with null for the event.
 	Nil int `json:"nil_event,omitempty"`
+	// NoMarker (subscribe): the selection gets no marker key (the subscription has a connection of its own)
+	NoMarker bool `json:"no_marker,omitempty"`
 	// ReuseOf > 0: this subscription request is not parsed afresh, the parsed request of the
 	// ReuseOf-th subscribe step (1-based) is resolved again (same selection, same id)
 	ReuseOf int `json:"reuse_of,omitempty"`
@@ -344,6 +346,19 @@ func genCaseC19(rt *rapid.T) *c19Case {
 				first.Sels = []*hx.Sel{{Kind: "spread", Name: fr.Name}, {Kind: "field", Name: "id"}}
 				first.Frags = []*hx.Frag{fr}
 				first.FailAt = nil
+				if rapid.IntRange(0, 2).Draw(rt, lab+"twinBodies") == 0 {
+					// ... or: the very same selection text, spreading a fragment of the same name whose
+					// body differs between the two requests (no marker key: the texts are to be equal)
+					second := first
+					second.Frags = []*hx.Frag{{Name: fr.Name, On: "Event", Sels: []*hx.Sel{{Kind: "field", Name: "n"}, {Kind: "field", Name: "tags"}, {Kind: "field", Name: "f"}}}}
+					first.NoMarker, second.NoMarker = true, true
+					if rapid.Bool().Draw(rt, lab+"twinOrder") {
+						first, second = second, first
+					}
+					c.Ops = append(c.Ops, first, second)
+					subs += 1
+					continue
+				}
 				second := first
 				cond := rapid.SampledFrom([]hx.DirUse{{Name: "skip", Args: []hx.KV{{Key: "if", V: hx.Bool(true)}}}, {Name: "include", Args: []hx.KV{{Key: "if", V: hx.Bool(false)}}}}).Draw(rt, lab+"twinCond")
 				second.Sels = []*hx.Sel{{Kind: "spread", Name: fr.Name, Dirs: []hx.DirUse{cond}}, {Kind: "field", Name: "id"}}
@@ -541,7 +556,7 @@ func runHistory(cc *c19Case) (ds []hx.Discrepancy, traits map[string]bool, hist 
 		switch op.Kind {
 		case "subscribe":
 			h := &hsub{num: len(all), pattern: op.Pattern, wildcard: op.Wildcard, log: &order, failAt: map[int]bool{}, sels: op.Sels, frags: op.Frags}
-			if op.Field != "batch" {
+			if op.Field != "batch" && !op.NoMarker {
 				// (a key that says which subscription a message is for)
 				h.marker = fmt.Sprintf("mk%d", h.num)
 				h.sels = append(append([]*hx.Sel{}, op.Sels...), &hx.Sel{Kind: "field", Alias: h.marker, Name: "__typename"})
